@@ -75,6 +75,7 @@ class Check(AddCheck):
         yield from gens.merge_cases_story(n_max=n_max, max_src=2, layouts=['plain', 'between'])
         yield from gens.merge_cases_item(n_max=n_max, max_src=2, para_layouts=['none', 'between'])
         yield from gens.merge_cases_other()
+        yield from gens.merge_cases_padded()
         yield from gens.merge_cases_bad_timing_payload()
         n_hist = 100 if tier == 'quick' else 1000
         for state in history_states(rng, n_hist, 8):
